@@ -188,7 +188,8 @@ def gen_case(run_seed: int, index: int, tier: str) -> dict:
             lay = f"blocks:{B}x{b}"
         else:
             members = [rng.randrange(npool) for _ in range(rng.choice([1, 2, 2, 3, 4, 6, 9, 17]))]
-        calls.append({"members": members, "layout": lay, "fresh": rng.random() < 0.12, "noncontig": rng.random() < 0.15})
+        calls.append({"members": members, "layout": lay, "fresh": rng.random() < 0.12, "noncontig": rng.random() < 0.15,
+                      "via": rng.choice([None, None, None, None, "deepcopy", "eval", "train_then_eval"])})
     if rng.random() < 0.5 and calls:
         calls.append(copy.deepcopy(rng.choice(calls)))  # the same call repeated
     case["calls"] = calls
@@ -198,30 +199,49 @@ def gen_case(run_seed: int, index: int, tier: str) -> dict:
 # ----------------------------------------------------------------------------- execution
 
 
-def _component(comp, fresh=False):
-    """returns (callable tensor->tensor, class name)"""
+def _component(comp, fresh=False, via=None):
+    """returns (callable tensor->tensor, class name); `via` applies a neutral transformation to the object first"""
+    f, name, obj = _component_obj(comp, fresh)
+    if via and isinstance(obj, torch.nn.Module):
+        import copy as _copy
+
+        if via == "deepcopy":
+            clone = _copy.deepcopy(obj)
+            f2, _, _ = _component_obj(comp, fresh, obj=clone)
+            return f2, name
+        if via == "eval":
+            obj.eval()
+        elif via == "train_then_eval":
+            obj.train()
+            obj.eval()
+    return f, name
+
+
+def _component_obj(comp, fresh=False, obj=None):
     kind = comp["kind"]
     if kind == "encoder":
-        enc = C.build_encoder(comp["code"])
-        return (lambda x: enc(x)), C.ENCODER_CLASS[comp["code"]["family"]]
+        enc = obj if obj is not None else C.build_encoder(comp["code"])
+        return (lambda x: enc(x)), C.ENCODER_CLASS[comp["code"]["family"]], enc
     if kind in ("decoder_hard", "decoder_soft"):
-        dec = C.build_decoder(comp["code"], comp["decoder"], comp.get("dec_opts"), fresh=fresh and comp["decoder"] not in ("syndrome", "ml"))
+        dec = obj if obj is not None else C.build_decoder(comp["code"], comp["decoder"], comp.get("dec_opts"), fresh=fresh and comp["decoder"] not in ("syndrome", "ml"))
         if comp.get("second_output"):
             kw = {comp["second_output"]: True}
-            return (lambda x: dec(x, **kw)), C.DECODER_CLASS[comp["decoder"]] + f"[{comp['second_output']}]"
-        return (lambda x: dec(x)), C.DECODER_CLASS[comp["decoder"]]
+            return (lambda x: dec(x, **kw)), C.DECODER_CLASS[comp["decoder"]] + f"[{comp['second_output']}]", dec
+        return (lambda x: dec(x)), C.DECODER_CLASS[comp["decoder"]], dec
     if kind == "modulator":
-        m, _ = _modem(comp, fresh)
-        return (lambda x: m(x)), type(m).__name__
+        m = obj if obj is not None else _modem(comp, fresh)[0]
+        return (lambda x: m(x)), type(m).__name__, m
     if kind == "demodulator":
-        _, d = _modem(comp, fresh)
+        d = obj if obj is not None else _modem(comp, fresh)[1]
         if comp["soft"]:
             nv = comp["noise_var"]
-            return (lambda y: d(y, nv)), type(d).__name__ + "[soft]"
-        return (lambda y: d(y)), type(d).__name__ + "[hard]"
+            return (lambda y: d(y, nv)), type(d).__name__ + "[soft]", d
+        return (lambda y: d(y)), type(d).__name__ + "[hard]", d
     import kaira.constraints as K
 
     c = comp["constraint"]
+    if obj is not None:
+        return (lambda x: obj(x)), type(obj).__name__, obj
     if c == "total":
         obj = K.TotalPowerConstraint(comp["value"])
     elif c == "average":
@@ -233,7 +253,7 @@ def _component(comp, fresh=False):
             obj = K.PerAntennaPowerConstraint(power_budget=torch.tensor([comp["value"] * (i + 1) for i in range(comp["antennas"])]))
         else:
             obj = K.PerAntennaPowerConstraint(uniform_power=comp["value"])
-    return (lambda x: obj(x)), type(obj).__name__
+    return (lambda x: obj(x)), type(obj).__name__, obj
 
 
 _MODEMS = {}
@@ -381,6 +401,12 @@ def execute(case: dict) -> RunResult:
                 res.faults["history.fresh_instance"] += 1
             except C.Inadmissible:
                 continue
+        elif call.get("via"):
+            try:
+                f, _ = _component(comp, via=call["via"])
+                res.faults[f"history.{call['via']}"] += 1
+            except Exception:
+                f = fn
         try:
             with torch.no_grad(), contextlib.redirect_stdout(io.StringIO()):
                 out = f(x)
